@@ -483,3 +483,165 @@ func isParamOrSpill(p *Path, t *Term, idx int) bool {
 	}
 	return n == 1 && ok
 }
+
+// ---------------------------------------------------------------------------
+// hand-written lower-bound bisection (the algorithm of sort.Search, written out)
+
+type bisection struct {
+	N    *Term // the searched length (initial hi)
+	Mid  *Term // the probe index
+	Up   *Path // iteration that continues with lo = mid+1 (the probe is before the answer)
+	Down *Path // iteration that continues with hi = mid   (the probe is at or after the answer)
+	Hdr  *LoopInfo
+}
+
+func stripConv(t *Term) *Term {
+	for t != nil && t.Op == "conv" {
+		t = t.Args[0]
+	}
+	return t
+}
+
+// isMidpoint: t is floor((lo+hi)/2) written as (lo+hi)/2, int(uint(lo+hi)>>1) or lo+(hi-lo)/2.
+func isMidpoint(t, lo, hi *Term) bool {
+	t = stripConv(t)
+	if t == nil || t.Op != "bin" || len(t.Args) != 2 {
+		return false
+	}
+	sum := ToPoly(lo).Add(ToPoly(hi), 1)
+	a, b := stripConv(t.Args[0]), stripConv(t.Args[1])
+	switch t.Sym {
+	case "/":
+		return b.IsConst("2") && ToPoly(a).Equal(sum)
+	case ">>":
+		return b.IsConst("1") && ToPoly(a).Equal(sum)
+	case "+":
+		// lo + (hi-lo)/2 in either operand order
+		for k := 0; k < 2; k++ {
+			if a.Key() == lo.Key() && b.Op == "bin" && (b.Sym == "/" && stripConv(b.Args[1]).IsConst("2") || b.Sym == ">>" && stripConv(b.Args[1]).IsConst("1")) &&
+				ToPoly(stripConv(b.Args[0])).Equal(ToPoly(hi).Add(ToPoly(lo), -1)) {
+				return true
+			}
+			a, b = b, a
+		}
+	}
+	return false
+}
+
+// lowerBoundBisection recognises, among the paths of a function,
+//
+//	lo, hi := 0, N
+//	for lo < hi { mid := (lo+hi)/2; if <probe before answer> { lo = mid+1 } else { hi = mid } }
+//	return lo
+//
+// The caller still has to check N and what the two iterations test about the probe. With a predicate that is
+// false before the answer and true from it on, this returns the first index where it is true (sort.Search).
+func lowerBoundBisection(ps []*Path) (*bisection, string) {
+	loops := findLoops(ps)
+	if len(loops) != 1 {
+		return nil, fmt.Sprintf("%d loops", len(loops))
+	}
+	li := loops[0]
+	if len(li.Phis) != 2 {
+		return nil, "the loop does not carry exactly lo and hi"
+	}
+	for swap := 0; swap < 2; swap++ {
+		pl, ph := li.Phis[0], li.Phis[1]
+		if swap == 1 {
+			pl, ph = ph, pl
+		}
+		lo, hi := li.LV[pl], li.LV[ph]
+		if in := li.Init[pl]; in == nil || !in.IsConst("0") {
+			continue
+		}
+		N := li.Init[ph]
+		if N == nil {
+			continue
+		}
+		b := &bisection{N: N, Hdr: li}
+		ok := len(li.Back) == 2
+		for _, p := range li.Back {
+			// continue condition lo < hi
+			cont := false
+			for _, cd := range p.Conds {
+				if pl2, kind, isInt := cd.Rel().IntNorm(); isInt && kind == ">" && pl2.Equal(ToPoly(hi).Add(ToPoly(lo), -1)) {
+					cont = true
+				}
+			}
+			if !cont {
+				ok = false
+				break
+			}
+			nl, nh := p.Next[pl], p.Next[ph]
+			switch {
+			case nh != nil && nh.Key() == hi.Key() && nl != nil:
+				// lo = mid + 1
+				mid := stripConv(nl)
+				if mid.Op == "bin" && mid.Sym == "+" && stripConv(mid.Args[1]).IsConst("1") && isMidpoint(mid.Args[0], lo, hi) {
+					b.Up, b.Mid = p, stripConv(mid.Args[0])
+				} else if mid.Op == "bin" && mid.Sym == "+" && stripConv(mid.Args[0]).IsConst("1") && isMidpoint(mid.Args[1], lo, hi) {
+					b.Up, b.Mid = p, stripConv(mid.Args[1])
+				} else {
+					ok = false
+				}
+			case nl != nil && nl.Key() == lo.Key() && nh != nil:
+				if isMidpoint(nh, lo, hi) {
+					b.Down = p
+				} else {
+					ok = false
+				}
+			default:
+				ok = false
+			}
+		}
+		if !ok || b.Up == nil || b.Down == nil {
+			continue
+		}
+		// exits: only lo >= hi, returning lo (or hi, equal there)
+		exits := 0
+		for _, p := range li.Exit {
+			if p.End == EndPanic {
+				continue
+			}
+			if p.End != EndReturn || len(p.Rets) != 1 {
+				return nil, "an exit of the loop does not return one value"
+			}
+			done := false
+			for _, cd := range p.Conds {
+				if pl2, kind, isInt := cd.Rel().IntNorm(); isInt && kind == ">" && pl2.Equal(ToPoly(lo).Add(ToPoly(hi), -1).Add(polyConst(1), 1)) {
+					done = true
+				}
+			}
+			if !done || !(p.Rets[0].Key() == lo.Key() || p.Rets[0].Key() == hi.Key()) {
+				return nil, "the loop is left other than by lo >= hi returning lo"
+			}
+			exits++
+		}
+		if exits == 0 {
+			return nil, "no exit"
+		}
+		return b, ""
+	}
+	return nil, "not lo, hi := 0, N; for lo < hi { mid := (lo+hi)/2; lo = mid+1 | hi = mid }; return lo"
+}
+
+// probeCond: the condition an iteration tests beyond the loop's own continue-condition (nil if none or several).
+func (b *bisection) probeCond(p *Path) *Cond {
+	at := p.LoopAt[b.Hdr.Hdr]
+	var out *Cond
+	n := 0
+	for i := range p.Conds {
+		cd := &p.Conds[i]
+		if cd.NEv < at {
+			continue
+		}
+		if cd.T.ContainsKey(b.Mid.Key()) {
+			out = cd
+			n++
+		}
+	}
+	if n != 1 {
+		return nil
+	}
+	return out
+}
